@@ -27,7 +27,8 @@ pub fn count(attr: TokenStream, item: TokenStream) -> TokenStream {
     }
     if let Some(path) = std::env::var_os("VERIF_HELPER_LOG") {
         if let Ok(mut f) = std::fs::OpenOptions::new().create(true).append(true).open(path) {
-            let _ = writeln!(f, "{}\t{}\t{}", attr.to_string(), name, proc_macro::Span::call_site().line());
+            let line = format!("{}\t{}\t{}\n", attr.to_string(), name, std::process::id());
+            let _ = f.write_all(line.as_bytes());
         }
     }
     item
